@@ -16,8 +16,9 @@ import (
 )
 
 type cliFile struct {
-	rel  string
-	data []byte
+	rel    string
+	data   []byte
+	linkTo string // not empty: the entry is a symbolic link to that file of the tree (data = the target's bytes)
 }
 
 type jsonClassification struct {
@@ -81,7 +82,7 @@ func genCliTree(r *rng, all []corpusDoc) []cliFile {
 		default:
 			data = append([]byte(oovBlock(r, r.intn(20), 3)+"\n"), d.text...)
 		}
-		fs = append(fs, cliFile{fmt.Sprintf("%sf%d%s", dirs[r.intn(len(dirs))], i, []string{".txt", ".c", "", ".LICENSE"}[r.intn(4)]), data})
+		fs = append(fs, cliFile{rel: fmt.Sprintf("%sf%d%s", dirs[r.intn(len(dirs))], i, []string{".txt", ".c", "", ".LICENSE"}[r.intn(4)]), data: data})
 	}
 	if r.chance(1, 2) {
 		// confidences interleaved across files: file A holds an exact and a heavily edited license, file B a
@@ -98,9 +99,18 @@ func genCliTree(r *rng, all []corpusDoc) []cliFile {
 		n3 := len(strings.Fields(string(d3.text)))
 		a := string(d1.text) + "\n\n" + oovBlock(r, 6, 2) + "\n" + string(editWords(r, d2.text, 1+n2/12))
 		b := string(editWords(r, d3.text, 1+n3/40))
-		fs = append(fs, cliFile{"a_two.txt", []byte(a)}, cliFile{"b_one.txt", []byte(b)})
+		fs = append(fs, cliFile{rel: "a_two.txt", data: []byte(a)}, cliFile{rel: "b_one.txt", data: []byte(b)})
 		if r.chance(1, 2) {
-			fs = append(fs, cliFile{"zz/c_three.txt", []byte(string(editWords(r, d1.text, 2)) + "\n" + oovBlock(r, 4, 1) + "\n" + string(d3.text))})
+			fs = append(fs, cliFile{rel: "zz/c_three.txt", data: []byte(string(editWords(r, d1.text, 2)) + "\n" + oovBlock(r, 4, 1) + "\n" + string(d3.text))})
+		}
+	}
+	if r.chance(1, 2) && len(fs) > 0 {
+		// symbolic links to files of the tree (vendored trees, Bazel and pnpm layouts): the tool reads through them
+		t := fs[r.intn(len(fs))]
+		fs = append(fs, cliFile{rel: "links/pkg/LICENSE", data: t.data, linkTo: t.rel})
+		if r.chance(1, 2) {
+			t2 := fs[r.intn(len(fs)-1)]
+			fs = append(fs, cliFile{rel: "LINK_" + filepath.Base(t2.rel), data: t2.data, linkTo: t2.rel})
 		}
 	}
 	return fs
@@ -132,6 +142,11 @@ func cmdC19(seed uint64, tier, outdir string, binPath string) {
 		for _, f := range files {
 			p := filepath.Join(root, filepath.FromSlash(f.rel))
 			os.MkdirAll(filepath.Dir(p), 0o755)
+			if f.linkTo != "" {
+				tgt, _ := filepath.Rel(filepath.Dir(p), filepath.Join(root, filepath.FromSlash(f.linkTo)))
+				os.Symlink(tgt, p)
+				continue
+			}
 			os.WriteFile(p, f.data, 0o644)
 		}
 		headers := r.chance(1, 2)
